@@ -347,7 +347,7 @@ PROPS = {
         "kani": {"quick": [], "thorough": []},
         # "oldest first under either row_order" depends on which `format` block is in force: the layering family of C17 runs here too (seed C16-l)
         "family": [("c16", {"quick": [], "thorough": []}), ("c17", {"quick": [], "thorough": ["thorough"]})],
-        "explanation": "(row statements, group `csvrow`: sliced out of csv::import and checked against the real Txn setters - the transaction of a row moves the configured account by the row's signed amount in the row's commodity on the row's date; a running-balance column becomes exactly that balance assertion in the row's commodity and no column means no assertion; a record the rules did not clear is marked pending; a charge column adds a charge posting and leaves the account posting alone; the conversion block: the matching rule's conversion applies, else the account's default one only when the row has rate, secondary amount and secondary commodity, and a conversion flagged `disabled` means none - no fall-back; the counter amount is in the commodity the conversion names, the secondary-commodity column only when it names none; the stated rate is attached to the commodity it prices - price_of_secondary: pair target = secondary commodity and counter amount = amount / rate, price_of_primary: target = primary and amount * rate) PARTIAL.  Verus proves the sign clauses on the real functions: FieldMap::amount books a non-empty credit column as +credit, otherwise a non-empty debit column as -debit, neither as an error, and an "
+        "explanation": "(row statements, group `csvrow`: sliced out of csv::import and checked against the real Txn setters - the transaction of a row moves the configured account by the row's signed amount in the row's commodity on the row's date; a running-balance column becomes exactly that balance assertion in the row's commodity and no column means no assertion; a record the rules did not clear is marked pending; a charge column adds a charge posting and leaves the account posting alone; the conversion block: the matching rule's conversion applies, else the account's default one only when the row has rate, secondary amount and secondary commodity, and a conversion flagged `disabled` means none - no fall-back; the counter amount is in the commodity the conversion names, the secondary-commodity column only when it names none; the stated rate is attached to the commodity it prices - price_of_secondary: pair target = secondary commodity and counter amount = amount / rate, price_of_primary: target = primary and amount * rate; Txn::add_rate records `1 target = rate source` under the TARGET commodity and a posting's printed cost is the rate recorded for its own commodity (slice + two anchors)) PARTIAL.  Verus proves the sign clauses on the real functions: FieldMap::amount books a non-empty credit column as +credit, otherwise a non-empty debit column as -debit, neither as an error, and an "
                        "`amount` column as +amount for an asset and -amount for a liability account; amount_with_sign gives the secondary amount the requested sign and keeps its magnitude and commodity; Neg for "
                        "OwnedAmount/BorrowedAmount negates the value only; the two expressions of Txn::dest_amount (sliced): without a conversion the counter-posting carries the opposite amount, with one the secondary "
                        "amount with the sign opposite to the row's amount; the statement that orders the rows at the end of csv::import (sliced) keeps an oldest-first statement and reverses a newest-first one.  "
